@@ -6,10 +6,10 @@
    of set_function / set_source_file / add_inline_frame; [frame_inlines] = StackFrame.inlines
    after fill_source_line_info.  [wf_file] states only what the parser's integer types
    guarantee (u64 addresses, u32 sizes/depths) plus "fewer than 2^32-1 INLINE ranges per FUNC". *)
-From Coq Require Import Lia.
+From Coq Require Import Lia Sorting.Permutation.
 From RM Require Import C08.Model C08.Proofs C11.Model C11.Proofs1 C11.Proofs2 C11.Proofs3 C11.Proofs4 C11.Proofs5 C11.Proofs6 C11.Proofs7.
-From RM Require C09.Model C09.Grammar C11.Text C11.Text2.
-From RM Require Import C11.Proofs8 C11.Proofs9.
+From RM Require C09.Model C09.Grammar C09.Driver C11.Text C11.Text2 C11.Text3.
+From RM Require Import C11.Proofs8 C11.Proofs9 C11.Proofs10.
 From RM Require Gen.C11Sym C11.Tie.
 Open Scope Z_scope.
 
@@ -368,6 +368,124 @@ Ltac wf_tac :=
   unfold wf_file, wf_fraw, wf_line, wf_inl, wf_pub, wf_win, u64, u32, two64, two32;
   repeat (first [apply Forall_nil | apply Forall_cons | split]); cbn; try lia.
 
+(* ---- round 5 ---- *)
+
+(* The records SymbolParser holds are in range, whatever the text.  After ANY sequence of lines —
+   each either recognised by parse_more's line logic ([recog_pst]) or dropped by the over-long-line
+   recovery ([bump_pst]) — every FUNC block (open or finished) has a u64 address, a u32 size, line
+   records and INLINE ranges with u64 addresses / u32 sizes / u32 depths, and at most as many INLINE
+   ranges as the text had bytes so far (each range costs its INLINE line at least two bytes); PUBLIC
+   addresses are u64; STACK WIN records have u64 addresses and u32 sizes.  This is the invariant that
+   discharges [eo_wf] (the hypothesis left in c11_from_text). *)
+Theorem c11_parser_records_in_range : forall (ds : list (bool * Grammar.rle)) q,
+  RM.C09.Model.replay Grammar.rle Grammar.pst Grammar.recog_pst Grammar.bump_pst Grammar.lineno_pst
+                      Grammar.init_pst ds = inl q ->
+  Text3.pst_rng (RM.C09.Model.size Grammar.rle Grammar.cllen (map snd ds)) q.
+Proof.
+  intros ds q H.
+  exact (Text3.replay_rng ds 0 Grammar.init_pst q (Z.le_refl 0) Text3.init_pst_rng H).
+Qed.
+Print Assumptions c11_parser_records_in_range.
+
+(* Every byte string that parses.  [bytes] is any byte string shorter than 2^32-1 bytes, split at
+   '\n' as SymbolFile::parse sees it; [drive_c … sch] is C09's model of the whole parse loop (circular
+   buffer, any read schedule [sch], over-long lines dropped); if it ends Ok with parser state [q] then
+   SymbolParser::finish returns a table [t] (no panic), the records of the text are [wf_file], and
+   fill_symbol on the parsed table IS [symbolize] on the records of the text — so every theorem of
+   this file is a theorem about the bytes.  What is left as a hypothesis is only the choice of the
+   two encodings ([enc_names_ok]: names as integers injectively / monotonically on the names of the
+   text, a tag for the STACK WIN fields that only take part in ==); nothing about the text itself. *)
+Theorem c11_from_bytes : forall nm tg (bytes : list Z) (sch : list Z) q s,
+  RM.C09.Driver.drive_c (map Grammar.to_rle (fst (Grammar.split_bytes bytes [])))
+                        (Z.of_nat (length (snd (Grammar.split_bytes bytes [])))) sch
+    = Ret (RM.C09.Model.ROk q, s) ->
+  Z.of_nat (length bytes) < two32 - 1 -> Text3.enc_names_ok nm tg q ->
+  exists t, Grammar.finish q = Ret t /\
+    wf_file (Text2.raw_of_pst nm tg q) /\
+    st_rel true (Text2.raw_of_pst nm tg q) (Text2.symtab_of_table nm tg t) /\
+    forall p mbase instr, 0 <= mbase -> instr < two64 ->
+      fill_symbol p (Text2.symtab_of_table nm tg t) mbase instr = symbolize p (Text2.raw_of_pst nm tg q) mbase instr.
+Proof. exact Text3.from_bytes. Qed.
+Print Assumptions c11_from_bytes.
+
+(* The same for run-length-encoded lines (a 1 MiB line of one byte is one pair), any tail. *)
+Theorem c11_from_parse : forall nm tg (lines : list Grammar.rle) (tail : Z) (sch : list Z) q s,
+  RM.C09.Driver.drive_c lines tail sch = Ret (RM.C09.Model.ROk q, s) ->
+  RM.C09.Model.size Grammar.rle Grammar.cllen lines < two32 - 1 -> Text3.enc_names_ok nm tg q ->
+  exists t, Grammar.finish q = Ret t /\
+    wf_file (Text2.raw_of_pst nm tg q) /\
+    st_rel true (Text2.raw_of_pst nm tg q) (Text2.symtab_of_table nm tg t) /\
+    forall p mbase instr, 0 <= mbase -> instr < two64 ->
+      fill_symbol p (Text2.symtab_of_table nm tg t) mbase instr = symbolize p (Text2.raw_of_pst nm tg q) mbase instr.
+Proof. exact Text3.from_parse. Qed.
+Print Assumptions c11_from_parse.
+
+(* The first clause of the property, stated of the bytes: fill_symbol on the table parsed from the
+   bytes never panics, reports nothing below the module, and a reported function is a FUNC block of
+   the text whose range contains the address (parameter size: its own or that of a STACK WIN record of
+   the text covering the address), or a PUBLIC of the text at or below the address; base <= instruction. *)
+Theorem c11_bytes_func_sound : forall nm tg (bytes : list Z) (sch : list Z) q s,
+  RM.C09.Driver.drive_c (map Grammar.to_rle (fst (Grammar.split_bytes bytes [])))
+                        (Z.of_nat (length (snd (Grammar.split_bytes bytes [])))) sch
+    = Ret (RM.C09.Model.ROk q, s) ->
+  Z.of_nat (length bytes) < two32 - 1 -> Text3.enc_names_ok nm tg q ->
+  exists t, Grammar.finish q = Ret t /\
+  forall p mbase instr, 0 <= mbase -> instr < two64 ->
+  exists o, fill_symbol p (Text2.symtab_of_table nm tg t) mbase instr = Ret o /\
+    (instr < mbase -> o = empty_out) /\
+    forall name base psz, o_func o = Some (name, base, psz) ->
+      mbase <= instr /\ base <= instr /\
+      ((exists fr, In fr (Text.funcs_of_pst q) /\ func_covers (Text.raw_of_func nm fr) (instr - mbase) = true /\
+          name = nm (Grammar.fr_name fr) /\ base = Grammar.fr_addr fr + mbase /\
+          (psz = Grammar.fr_psize fr \/
+           exists w, In w (rev (Grammar.p_win_fd (Grammar.close_cur q)) ++ rev (Grammar.p_win_fpo (Grammar.close_cur q))) /\
+                     win_covers (Text2.Gw tg w) (instr - mbase) = true /\ psz = Grammar.wi_params w))
+       \/ (exists pb, In pb (Grammar.p_publics (Grammar.close_cur q)) /\ Grammar.pb_addr pb <= instr - mbase /\
+             name = nm (Grammar.pb_name pb) /\ base = Grammar.pb_addr pb + mbase /\ psz = Grammar.pb_psize pb /\
+             o_src o = None /\ o_inl o = [])).
+Proof. exact Text3.bytes_func_sound. Qed.
+Print Assumptions c11_bytes_func_sound.
+
+(* get_inlinee_at_depth, exactly, for EVERY FUNC block — overlapping INLINE ranges, duplicate
+   (depth, address) keys, records in any order.  [kept fr] = the INLINE ranges of the block with
+   non-zero size (finish_item's retain); [nearest l d x c]: c is the greatest record of l, in the
+   derived order of Inlinee (depth, address, size, call_file, call_line, origin_id), among those whose
+   (depth, address) is <= (d, x) — or None when there is none.  Such a c always exists, is unique, and
+   the lookup on the finished Function answers [giad_check d x c]: c if it has depth d and
+   x < c.address + c.size (representable), else None.  Neither the binary search nor the order of
+   the records in the file appears in the statement.  (DESIGN.md planned a set of admissible
+   answers for duplicate keys; the answer is in fact unique.) *)
+Theorem c11_inlinee_lookup_exact : forall fr d x,
+  (exists c, nearest (kept fr) d x c) /\
+  (forall c c', nearest (kept fr) d x c -> nearest (kept fr) d x c' -> c = c') /\
+  forall c, nearest (kept fr) d x c ->
+    get_inlinee_at_depth (fn_inls (fin_func true fr)) d x = Ret (giad_check d x c).
+Proof.
+  intros fr d x. split; [apply nearest_exists|]. split; [apply nearest_unique|apply inlinee_lookup_exact].
+Qed.
+Print Assumptions c11_inlinee_lookup_exact.
+
+(* Duplicate (depth, address) keys: among the non-empty INLINE ranges of the block with the same depth
+   and address as the answer, the answer has the greatest (size, call_file, call_line, origin_id). *)
+Theorem c11_inlinee_duplicates : forall fr d x e e',
+  get_inlinee_at_depth (fn_inls (fin_func true fr)) d x = Ret (Some e) ->
+  In e' (fr_inls fr) -> 0 < i_size e' -> i_depth e' = i_depth e -> i_addr e' = i_addr e ->
+  lex_lt [i_size e; i_cfile e; i_cline e; i_origin e] [i_size e'; i_cfile e'; i_cline e'; i_origin e'] = false.
+Proof. exact inlinee_lookup_duplicates. Qed.
+Print Assumptions c11_inlinee_duplicates.
+
+(* The order of the INLINE records inside a FUNC block (and of the ranges inside one INLINE record) is
+   irrelevant: two files that differ only by permuting the INLINE ranges of their FUNC blocks parse to
+   the same Function values (the derived order is total, so the sorted vector is unique) and give the
+   same symbolication — parse outcome included — at every address, module base and profile. *)
+Theorem c11_inline_order_irrelevant : forall p rf rf' mbase instr,
+  rf_files rf = rf_files rf' -> rf_origins rf = rf_origins rf' -> rf_publics rf = rf_publics rf' ->
+  rf_win_fd rf = rf_win_fd rf' -> rf_win_fpo rf = rf_win_fpo rf' ->
+  Forall2 same_up_to_inline_order (rf_funcs rf) (rf_funcs rf') ->
+  symbolize p rf mbase instr = symbolize p rf' mbase instr.
+Proof. exact symbolize_inline_order. Qed.
+Print Assumptions c11_inline_order_irrelevant.
+
 (* ---- F-C11a: before the fix, an INLINE range of size zero hid the enclosing range *)
 Definition f11a_witness : raw_file :=
   mk_raw [(1, 1)] [(1, 11); (2, 12)] []
@@ -475,6 +593,59 @@ Proof.
   - intros w sz. reflexivity.
   - cbn. intros a b (w0 & [] & _).
   - cbn. intros a b (w0 & [] & _).
+Qed.
+
+(* round 5: the bytes of nv_text2 (lines joined by '\n') through the whole parse loop with reads of 3 and 5
+   bytes: Ok, shorter than 2^32-1, the encodings fit — the hypotheses of c11_from_bytes are met *)
+Definition nv_bytes : list Z :=
+  Grammar.join_bytes
+      [[70;73;76;69;32;49;32;120];
+       [80;85;66;76;73;67;32;56;32;48;32;97];
+       [70;85;78;67;32;49;48;32;56;32;48;32;102];
+       [49;48;32;52;32;55;32;49];
+       [73;78;76;73;78;69;95;79;82;73;71;73;78;32;50;32;111];
+       [73;78;76;73;78;69;32;48;32;51;32;49;32;50;32;49;48;32;52;32;49;54;32;50];
+       [80;85;66;76;73;67;32;109;32;51;48;32;48;32;98]] [].
+Example c11_nonvacuous_from_bytes :
+  exists q s,
+    RM.C09.Driver.drive_c (map Grammar.to_rle (fst (Grammar.split_bytes nv_bytes [])))
+                          (Z.of_nat (length (snd (Grammar.split_bytes nv_bytes [])))) [3; 5]
+      = Ret (RM.C09.Model.ROk q, s) /\
+    Z.of_nat (length nv_bytes) < two32 - 1 /\ Text3.enc_names_ok nv_nm nv_tg q /\
+    Text3.pst_rng 104 q /\
+    map (fun f => length (Grammar.fr_inls f)) (Text.funcs_of_pst q) = [2%nat].
+Proof.
+  eexists. eexists. split; [vm_compute; reflexivity|]. split; [vm_compute; reflexivity|].
+  split; [|split; [|vm_compute; reflexivity]].
+  - constructor.
+    + unfold Text.names_injective. cbn. intros a b [<-|[]] [<-|[]] _. reflexivity.
+    + cbn. intros a b [<-|[<-|[]]] [<-|[<-|[]]]; vm_compute; reflexivity.
+    + intros w sz. reflexivity.
+    + cbn. intros a b (w0 & [] & _).
+    + cbn. intros a b (w0 & [] & _).
+  - apply (Text3.pst_rng_mono (0 + RM.C09.Model.size Grammar.rle Grammar.cllen
+                                     (map Grammar.to_rle (fst (Grammar.split_bytes nv_bytes []))))).
+    + vm_compute. discriminate.
+    + apply (Text3.fold_recog_rng _ 0 Grammar.init_pst); [lia|exact Text3.init_pst_rng|vm_compute; reflexivity].
+Qed.
+
+(* round 5: a FUNC block with three INLINE ranges sharing (depth 0, address 16) — sizes 4, 8, 8, call lines
+   30, 10, 20 — plus an empty one: the greatest in the derived order, (0, 16, 8, 1, 20, 2), is [nearest] at
+   address 17 and is what the lookup returns; at 30 it is still nearest but does not cover: None *)
+Definition nv_dup : func_raw :=
+  mk_fraw 16 16 0 5 [] [mk_inl 0 16 8 1 20 2; mk_inl 0 16 4 1 30 2; mk_inl 0 16 0 1 99 2; mk_inl 0 16 8 1 10 2].
+Example c11_nonvacuous_duplicates :
+  nearest (kept nv_dup) 0 17 (Some (mk_inl 0 16 8 1 20 2)) /\
+  get_inlinee_at_depth (fn_inls (fin_func true nv_dup)) 0 17 = Ret (Some (mk_inl 0 16 8 1 20 2)) /\
+  nearest (kept nv_dup) 0 30 (Some (mk_inl 0 16 8 1 20 2)) /\
+  get_inlinee_at_depth (fn_inls (fin_func true nv_dup)) 0 30 = Ret None /\
+  same_up_to_inline_order nv_dup (mk_fraw 16 16 0 5 [] (rev (fr_inls nv_dup))).
+Proof.
+  assert (N : forall x, 16 <= x -> nearest (kept nv_dup) 0 x (Some (mk_inl 0 16 8 1 20 2))).
+  { intros x Hx. cbn. split; [auto|]. split; [unfold key_le; cbn; lia|].
+    intros e [<-|[<-|[<-|[]]]] _; vm_compute; reflexivity. }
+  split; [apply N; lia|]. split; [vm_compute; reflexivity|]. split; [apply N; lia|]. split; [vm_compute; reflexivity|].
+  unfold same_up_to_inline_order. cbn. repeat split. apply (Permutation_rev (fr_inls nv_dup)).
 Qed.
 
 (* round 4: three lookups (depths 0, 1 and the failing depth 2) at address 21 of nv_file2, with any extra fuel;
